@@ -8,9 +8,11 @@ use rand_distr::{Distribution, UnitBall, UnitCircle, UnitDisc, UnitSphere};
 use serde_json::{json, Value};
 use std::io::Write;
 
-fn word_for<F: Fx>(k: i64) -> u64 {
-    // Uniform(-1, 1): value0_1 * 2 - 1 with value0_1 = j / 2^MANT;  x = k/16  <=>  value0_1 = (k + 16)/32
-    if F::NAME == "f32" { ((((k + 16) as u64) << 18) << 9) << 32 } else { (((k + 16) as u64) << 47) << 12 }
+fn word_for<F: Fx>(k: i64) -> u64 { word_den::<F>(k, 16) }
+/// Uniform(-1, 1): value0_1 * 2 - 1 with value0_1 = j / 2^MANT;  x = k/den  <=>  value0_1 = (k + den)/(2 den)
+fn word_den<F: Fx>(k: i64, den: i64) -> u64 {
+    let sh = if den == 16 { 5 } else { 7 };       // 2*den = 2^sh
+    if F::NAME == "f32" { ((((k + den) as u64) << (23 - sh)) << 9) << 32 } else { (((k + den) as u64) << (52 - sh)) << 12 }
 }
 
 fn sample_kind<F: Fx>(kind: &str, rng: &mut ScriptRng) -> Result<Vec<F>, String>
@@ -57,15 +59,60 @@ where UnitCircle: Distribution<[F; 2]>, UnitDisc: Distribution<[F; 2]>, UnitSphe
     }
 }
 
+/// second-iteration proposals (first iteration: the rejected corner (15,15[,15])/16) and the finer lattice k/64
+fn lat_more<F: Fx>(seed: u64, out: &mut Vec<String>)
+where UnitCircle: Distribution<[F; 2]>, UnitDisc: Distribution<[F; 2]>, UnitSphere: Distribution<[F; 3]>, UnitBall: Distribution<[F; 3]> {
+    let mut rnd = Sm(seed);
+    let q = |x: F, sc: f64| -> i64 { let y = x.f64v() * sc; if y.is_finite() { y.floor() as i64 } else { -999_999_999 } };
+    for kind in ["disc", "circle", "sphere", "ball"] {
+        let dim = if kind == "ball" { 3usize } else { 2 };
+        // lat2
+        let n = 16i64.pow(dim as u32);
+        for idx in 0..n {
+            let ks: Vec<i64> = (0..dim).map(|d| ((idx / 16i64.pow(d as u32)) % 16) * 2 - 16 + (idx % 2)).collect();
+            let mut words: Vec<u64> = vec![word_for::<F>(15); dim];
+            words.extend(ks.iter().map(|&k| word_for::<F>(k)));
+            let mut rng = ScriptRng::new(words, 23);
+            let r = sample_kind::<F>(kind, &mut rng);
+            let acc = rng.words() == 2 * dim as u64;
+            let mut ev = json!({"op": "lat2", "kind": kind, "ft": F::NAME, "k": ks, "words": rng.words(), "acc": acc});
+            match r { Err(p) => { ev["res"] = json!(format!("Panic: {}", p)); }
+                Ok(v) => { ev["res"] = json!("Ok");
+                    match kind {
+                        "disc" | "ball" => { ev["q"] = json!(v.iter().map(|&x| q(x, 65536.0)).collect::<Vec<_>>()); }
+                        "circle" => { ev["q"] = json!(v.iter().map(|&x| q(x, 1048576.0)).collect::<Vec<_>>()); }
+                        _ => { ev["m"] = json!(v[..2].iter().map(|&x| q(x.abs(), 4096.0)).collect::<Vec<_>>());
+                               ev["sg"] = json!(v[..2].iter().map(|&x| if x > F::zero() { 1 } else if x < F::zero() { -1 } else { 0 }).collect::<Vec<_>>());
+                               let t = v[2].f64v() * 256.0; ev["q3"] = json!(if t.fract() == 0.0 { t as i64 } else { -999_999 }); }
+                    } } }
+            out.push(ev.to_string());
+        }
+        // fine lattice k/64: all points for the 2-d samplers; for the ball the shell 0.85 < |x|^2 <= 1.1 plus a random tenth
+        let m = 128i64.pow(dim as u32);
+        for idx in 0..m {
+            let ks: Vec<i64> = (0..dim).map(|d| (idx / 128i64.pow(d as u32)) % 128 - 64).collect();
+            if dim == 3 { let s: i64 = ks.iter().map(|k| k * k).sum(); if !((s > 3481 && s <= 4505) || rnd.below(10) == 0) { continue; } }
+            let words: Vec<u64> = ks.iter().map(|&k| word_den::<F>(k, 64)).collect();
+            let mut rng = ScriptRng::new(words, 29);
+            let r = sample_kind::<F>(kind, &mut rng);
+            let acc = rng.words() == dim as u64;
+            let mut ev = json!({"op": "fine", "kind": kind, "ft": F::NAME, "k": ks, "words": rng.words(), "acc": acc});
+            match r { Err(p) => { ev["res"] = json!(format!("Panic: {}", p)); }
+                Ok(v) => { ev["res"] = json!("Ok"); if kind == "disc" || kind == "ball" { ev["q"] = json!(v.iter().map(|&x| q(x, 65536.0)).collect::<Vec<_>>()); } } }
+            out.push(ev.to_string());
+        }
+    }
+}
+
 fn rand_ev<F: Fx>(kind: &str, rng: &mut ScriptRng, tag: Value) -> String
 where UnitCircle: Distribution<[F; 2]>, UnitDisc: Distribution<[F; 2]>, UnitSphere: Distribution<[F; 3]>, UnitBall: Distribution<[F; 3]> {
     let r = sample_kind::<F>(kind, rng);
     match r {
-        Err(p) => json!({"op": "rand", "kind": kind, "ft": F::NAME, "res": format!("Panic: {}", p), "finite": false, "degenerate": false, "nrm": [0, 0, 0], "tag": tag}).to_string(),
+        Err(p) => json!({"op": "rand", "kind": kind, "ft": F::NAME, "res": format!("Panic: {}", p), "finite": false, "degenerate": false, "words": rng.words(), "nrm": [0, 0, 0], "tag": tag}).to_string(),
         Ok(v) => {
             let mut n2 = F::zero(); for &x in &v { n2 = n2 + x * x; }
             let finite = v.iter().all(|x| x.is_finite());
-            json!({"op": "rand", "kind": kind, "ft": F::NAME, "res": "Ok", "finite": finite, "degenerate": false,
+            json!({"op": "rand", "kind": kind, "ft": F::NAME, "res": "Ok", "finite": finite, "degenerate": false, "words": rng.words(),
                    "nrm": if n2.is_finite() { ord_limbs(n2) } else { vec![0, 0, 0] }, "show": v.iter().map(|x| format!("{:e}", x)).collect::<Vec<_>>(), "tag": tag}).to_string()
         }
     }
@@ -89,6 +136,8 @@ pub fn drive(args: &[String]) -> i32 {
     let outp = arg_val(args, "--out").unwrap();
     let mut out = vec![];
     lat::<f32>(&mut out); lat::<f64>(&mut out);
+    lat_more::<f64>(seed + 7, &mut out);
+    if args.iter().any(|a| a == "--thorough") { lat_more::<f32>(seed + 8, &mut out); }
     let nlat = out.len();
     rands::<f32>(seed, n, &mut out); rands::<f64>(seed + 1, n, &mut out);
     let mut f = std::io::BufWriter::new(std::fs::File::create(&outp).unwrap());
